@@ -65,17 +65,22 @@ func writeTo(f *type1.Font, form int, w io.Writer) error {
 
 func write(f *type1.Font, form int) (data []byte, l1, l2 int, err error) {
 	var buf bytes.Buffer
+	// the destination's concrete type is a function of the case
+	w, done := iofault.NewWriter(iofault.WriterKinds[(len(f.Glyphs)+form)%len(iofault.WriterKinds)], &buf)
 	switch form {
 	case formPFA:
-		err = f.Write(&buf, &type1.WriterOptions{Format: type1.FormatPFA})
+		err = f.Write(w, &type1.WriterOptions{Format: type1.FormatPFA})
 	case formPFB:
-		err = f.Write(&buf, &type1.WriterOptions{Format: type1.FormatPFB})
+		err = f.Write(w, &type1.WriterOptions{Format: type1.FormatPFB})
 	case formBinary:
-		err = f.Write(&buf, &type1.WriterOptions{Format: type1.FormatBinary})
+		err = f.Write(w, &type1.WriterOptions{Format: type1.FormatBinary})
 	case formPlain:
-		err = f.Write(&buf, &type1.WriterOptions{Format: type1.FormatNoEExec})
+		err = f.Write(w, &type1.WriterOptions{Format: type1.FormatNoEExec})
 	case formPDF:
-		l1, l2, err = f.WritePDF(&buf)
+		l1, l2, err = f.WritePDF(w)
+	}
+	if err == nil {
+		err = done()
 	}
 	return buf.Bytes(), l1, l2, err
 }
